@@ -46,6 +46,9 @@ def check(ck):
     from . import c15
     c15.r15_9(ck, rule='R08.10')
     r08_11(ck)
+    from . import helpers as H
+    ck.rule('R08.12', 'deep_merge (used by the merge updater) keeps its recursion skeleton')
+    H.deep_merge_shape(ck, 'R08.12')
 
 
 def registrations(ck, registry):
